@@ -420,3 +420,59 @@ func LeftPad(v *big.Int, n int) []byte {
 	copy(out[n-len(b):], b)
 	return out
 }
+
+// ProtectPlain is Protect with a caller-supplied complete plaintext (a multiple of 16 octets,
+// whose last octet is whatever the caller wants the pad-length octet to be - possibly impossible).
+func ProtectPlain(s Suite, k DirKeys, hdr28 []byte, firstInner uint8, plaintext, iv []byte, skFlags byte) ([]byte, error) {
+	if len(hdr28) != 28 || len(iv) != 16 || len(plaintext)%16 != 0 {
+		return nil, errors.New("ref: ProtectPlain arguments")
+	}
+	ct, err := CBCEncrypt(k.E, iv, plaintext)
+	if err != nil {
+		return nil, err
+	}
+	return ProtectBody(s, k, hdr28, firstInner, append(append([]byte(nil), iv...), ct...), skFlags)
+}
+
+// ProtectBody wraps arbitrary octets as the SK payload content and appends a valid ICV.
+func ProtectBody(s Suite, k DirKeys, hdr28 []byte, firstInner uint8, body []byte, skFlags byte) ([]byte, error) {
+	skLen := 4 + len(body) + s.Integ.OutLen
+	if len(hdr28) != 28 || skLen > 0xffff {
+		return nil, errors.New("ref: ProtectBody arguments")
+	}
+	total := 28 + skLen
+	w := append([]byte(nil), hdr28...)
+	w[16] = 46
+	w[24], w[25], w[26], w[27] = byte(total>>24), byte(total>>16), byte(total>>8), byte(total)
+	w = append(w, firstInner, skFlags, byte(skLen>>8), byte(skLen))
+	w = append(w, body...)
+	mac := HMAC(s.Integ.Hash, k.A, w)[:s.Integ.OutLen]
+	return append(w, mac...), nil
+}
+
+// Header28 encodes the fixed IKE header (next payload and length are placeholders).
+func Header28(ispi, rspi uint64, major, minor, exch, flags uint8, msgid uint32) []byte {
+	b := append(be64(ispi), be64(rspi)...)
+	b = append(b, 0, major<<4|minor&15, exch, flags, byte(msgid>>24), byte(msgid>>16), byte(msgid>>8), byte(msgid), 0, 0, 0, 0)
+	return b
+}
+
+// SplitLenient follows a payload chain through next-payload and length fields until the
+// octets run out, without judging the final next-payload value (what a lenient receiver does).
+func SplitLenient(first uint8, b []byte) ([]RawPayload, error) {
+	var out []RawPayload
+	next := first
+	for len(b) > 0 {
+		if len(b) < 4 {
+			return out, errors.New("ref: truncated generic payload header")
+		}
+		l := int(b[2])<<8 | int(b[3])
+		if l < 4 || l > len(b) {
+			return out, errors.New("ref: payload length out of range")
+		}
+		out = append(out, RawPayload{Type: next, Flags: b[1], Body: b[4:l]})
+		next = b[0]
+		b = b[l:]
+	}
+	return out, nil
+}
